@@ -142,6 +142,35 @@ def gate (noCheck : Bool) (treeSize sthSize begin : Nat) (proofOk : Bool) : Gate
   else if noCheck then .proceed
   else if proofOk then .proceed else .refused
 
+/-! ### the Controller's continuous loop (`Controller.Run`): position bookkeeping across passes -/
+
+/-- `Run`'s state between passes: its position (`pos`, 0 when `Run` is entered) and what the destination holds -/
+structure RunSt where
+  pos : Nat
+  dest : List Stored
+deriving Repr, DecidableEq
+
+/-- one iteration of the loop: the destination reports `treeSize`, the source's STH has `sth` entries, then anything
+may happen in the pass (`ops`; a refused gate is a pass with no ops) -/
+structure Iter where
+  treeSize : Nat
+  sth : Nat
+  batch : Nat
+  fetchers : Nat
+  submitters : Nat
+  ops : List POp
+
+/-- `next, err := c.fetchTail(ctx, pos)`: nothing to do if the STH is not beyond the position; otherwise a pass over
+`[max(treeSize, pos), sth)`; success moves the position to `sth`, failure ends `Run` (a later `Run` starts from 0). -/
+def runIter (c : Cfg) (s : RunSt) (it : Iter) : RunSt :=
+  if it.sth ≤ s.pos then s else
+  let p := prun c (pinit (passStart true 0 it.treeSize s.pos) it.sth it.batch it.fetchers it.submitters s.dest) it.ops
+  if passOk p then ⟨it.sth, p.dest⟩ else ⟨0, p.dest⟩
+
+def runIters (c : Cfg) (s : RunSt) : List Iter → RunSt
+  | [] => s
+  | it :: t => runIters c (runIter c s it) t
+
 /-- The submitter's reaction to ResourceExhausted **as the code has it** (regenerated from trillian.go): the `switch` on the
 gRPC code asks for a retry, *and* the error value it returns for that is one `backoff.Retry` recognises as retryable. -/
 def codeRetriesQuota : Bool :=
